@@ -2,6 +2,8 @@
 // ST::format vs ST::printf(FILE*) vs ST::writef(narrow / wchar_t / char16_t /
 // char32_t streams) vs ST::format_latin_1, stream insertion and extraction.
 #include "vrt.h"
+#include <sys/mman.h>
+#include <unistd.h>
 #include "vrt_alloc.h"
 #include "vrt_st.h"
 #include "ref_format.h"
@@ -133,6 +135,32 @@ static void sink_case(int shape, const Values &v, const S &fmt)
             vrt::violation("C17:printf:differs-from-format", sfmt("%s got=%s want=%s", ctx.c_str(), show(S(mem, msz)).c_str(), show(want).c_str()));
         free(mem);
     }
+    // the overload without a FILE*: standard output, captured through a memory file put in place of descriptor 1
+    {
+        vrt::evals();
+        bool threw = false;
+        S got;
+        fflush(stdout);
+        const int saved = dup(1), mfd = memfd_create("vrt-stdout", 0);
+        if (saved < 0 || mfd < 0 || dup2(mfd, 1) < 0) { fprintf(stderr, "vrt: cannot redirect stdout\n"); _exit(98); }
+        try {
+            call_shape(shape, v, f.data(), nullptr, [&](const char *fs, auto &&...a) { ST::printf(fs, a...); });
+        } catch (const std::exception &e) {
+            threw = true;
+            fflush(stdout);
+            dup2(saved, 1);
+            vrt::violation(sfmt("C17:printf(stdout):threw:%s", vrt::demangle(typeid(e).name()).c_str()), ctx + " " + e.what());
+        }
+        fflush(stdout);
+        dup2(saved, 1);
+        close(saved);
+        const off_t n = lseek(mfd, 0, SEEK_END);
+        if (n > 0) { got.resize(static_cast<size_t>(n)); if (pread(mfd, &got[0], got.size(), 0) != n) got.clear(); }
+        close(mfd);
+        if (!threw && got != want)
+            vrt::violation("C17:printf(stdout):differs-from-format", sfmt("%s got=%s want=%s", ctx.c_str(), show(got).c_str(), show(want).c_str()));
+        vrt::count("printf.stdout_captured");
+    }
     // narrow stream sink
     {
         std::ostringstream os;
@@ -232,6 +260,7 @@ static void body()
     vrt::require("format.non_ascii_output", 1000);
     vrt::require("format.long_output", 20);
     vrt::require("insert.cases", 1000);
+    vrt::require("printf.stdout_captured", 5000);
     vrt::require("insert.with_U+0000", 100);
     vrt::require("writef.stream_with_pending_state", 1000);
     vrt::require("extract.tokens", 1000);
